@@ -247,5 +247,5 @@ def jobs(tier):
                          'range-for over the method / class / v-table vectors as index loops; Policy::publish_vptrs as a logging stub (units/vptrs proves it)'],
                 assumptions=['v-table entries name an existing method, one of its virtual parameters and a group below its table size (what build_dispatch_tables writes; not under contract)',
                              'pointer arithmetic before the start of the dispatch data (static vptr biased by first_slot) is taken as the implementation defines it'],
-                extracted=[ex], props=['C01', 'C04', 'C07', 'C12', 'C13'], timeout=300))
+                extracted=[ex], props=['C01', 'C04', 'C07', 'C12', 'C13'], timeout=300 if tier != 'thorough' else 1500))
     return out
